@@ -15,6 +15,7 @@ sys.path.insert(0, HERE)
 from mirlib import Facts, strip_generics          # noqa: E402
 from absint import Interp, AnalysisError          # noqa: E402
 from lin import Lin, ATOMS, le, lt, STATS          # noqa: E402
+import absint as absint_mod                          # noqa: E402
 from values import Loc                             # noqa: E402
 
 REPO = os.environ.get('VERIF_REPO', '/repo')
@@ -225,6 +226,8 @@ class Check:
                 a = Analysis(self.facts, key, cfg, assume)
             except KeyError as e:
                 raise Tooling(f"anchor lost: function {key} not found ({e})")
+            except absint_mod.BudgetExceeded as e:
+                raise Tooling(str(e))
             self.analyses[ck] = a
             for k, v in a.I.unmodelled.items():
                 self.unmodelled[k] = self.unmodelled.get(k, 0) + v
